@@ -320,6 +320,8 @@ class Folder(FileSystemItemABC):
 
         # a restored file is live again: it no longer belongs to the deleted files
         self.deleted_files.pop(file.uuid, None)
+        # requests addressed to this file name must reach the restored file, not a later (deleted) file of that name
+        self._file_request_manager.add_request(file.name, RequestType(func=file._request_manager))
         return True
 
     def quarantine(self):
